@@ -127,7 +127,16 @@ func (e *ArEntry) Tarfile() (*tar.Reader, io.Closer, error) {
 	if !e.IsTarfile() {
 		return nil, nil, fmt.Errorf("%s appears to not be a tarfile", e.Name)
 	}
-	readCloser, err := DecompressorFor(filepath.Ext(e.Name))(e.Data)
+	/* The decompressor gets a reader of its own over the member: some
+	 * decompressors (zstd) read ahead from another goroutine, which must
+	 * not race with anybody who seeks or reads e.Data itself, such as
+	 * CheckDebsig. */
+	offset, err := e.Data.Seek(0, io.SeekCurrent)
+	if err != nil {
+		return nil, nil, err
+	}
+	member := io.NewSectionReader(e.Data, offset, e.Data.Size()-offset)
+	readCloser, err := DecompressorFor(filepath.Ext(e.Name))(member)
 	if err != nil {
 		return nil, nil, err
 	}
